@@ -159,6 +159,16 @@ let observe (r : value) : string =
     | NPanic k -> "panic-" ^ str_pk k in
   one (TString false) ^ "/" ^ one (TFloat64 false) ^ "/" ^ one (TBool false)
 
+let str_outcome = function
+  | OParseError PUndefined -> "parse-error undefined"
+  | OParseError PTooMany -> "parse-error toomany"
+  | OParseError PNotFunc -> "parse-error notfunc"
+  | OSetupError (n, e) -> "setup-error " ^ hex_of_bytes n ^ " " ^ str_setup e
+  | OAwkFunc -> "awkfunc"
+  | ORunError (id, recv) -> "run-error " ^ string_of_z id ^ " " ^ str_recv recv
+  | OValue (v, recv) -> "ok " ^ str_recv recv ^ " " ^ str_value v ^ " " ^ observe v
+  | OPanic k -> "panic " ^ str_pk k
+
 let handle = function
   | ["call"; views; name; params; variadic; results; outs; args] ->
       load_views views;
@@ -179,15 +189,18 @@ let handle = function
       let awkdef = List.map bytes_of_hex (split ',' awkdef) in
       let args = List.map parse_arg (split ',' args) in
       (* the two maps are walked in unrelated orders: give the model two different ones *)
-      (match run p_float p_prefix f_fmt funcs (List.rev funcs) awkdef (bytes_of_hex name) args with
-       | OParseError PUndefined -> "parse-error undefined"
-       | OParseError PTooMany -> "parse-error toomany"
-       | OParseError PNotFunc -> "parse-error notfunc"
-       | OSetupError (n, e) -> "setup-error " ^ hex_of_bytes n ^ " " ^ str_setup e
-       | OAwkFunc -> "awkfunc"
-       | ORunError (id, recv) -> "run-error " ^ string_of_z id ^ " " ^ str_recv recv
-       | OValue (v, recv) -> "ok " ^ str_recv recv ^ " " ^ str_value v ^ " " ^ observe v
-       | OPanic k -> "panic " ^ str_pk k)
+      str_outcome (run p_float p_prefix f_fmt funcs (List.rev funcs) awkdef (bytes_of_hex name) args)
+  | ["hist"; views; funcs; awkdef; name; args; maps] ->
+      (* ParseProgram with funcs, New, then one Execute per map (maps separated by ^) *)
+      load_views views;
+      let funcs = parse_funcs funcs in
+      let awkdef = List.map bytes_of_hex (split ',' awkdef) in
+      let args = List.map parse_arg (split ',' args) in
+      let maps = List.mapi (fun i m -> let l = parse_funcs m in if i mod 2 = 0 then List.rev l else l)
+                   (String.split_on_char '^' maps) in
+      (match run_history p_float p_prefix f_fmt funcs awkdef (bytes_of_hex name) args maps with
+       | Inl o -> "parse " ^ str_outcome o
+       | Inr os -> "steps " ^ String.concat " ; " (List.map str_outcome os))
   | ["conv"; views; t; a] ->
       load_views views;
       (match to_native p_float p_prefix f_fmt (parse_arg a) (parse_ty t) with
